@@ -956,6 +956,11 @@ class SupportComplexDataType(Element):
                 datatype != self.datatype:
             raise OperationNotAllowed("Cannot change datatype using STRICT validation")
 
+        if hasattr(self, 'children') and len(self.children) >= 1 and \
+                not is_base_datatype(self.datatype, self.version):
+            # checked before touching the structure, otherwise the children would not match it anymore
+            raise OperationNotAllowed("Cannot change datatype: the Element already contains children")
+
         # This will change the structure of the Field/Component so it is done only if the structure
         # is really changed. That's because the first time the datatype is set by the Element._find_structure method
         if not is_base_datatype(datatype, self.version) and \
